@@ -207,7 +207,7 @@ def gen_call(rng, grp):
         yk = {'year': 2015} if grp == 'wma2015' else {}
         g = r.choice(['m', 'f', 'm', 'f', 'M', 'F'])
         x = r.random()
-        ev = r.choice(WMA_EVENTS) if x < 0.75 else r.choice(WMA_INTERP) if x < 0.95 else r.choice(['XYZ', '', '4X100'])
+        ev = r.choice(WMA_EVENTS) if x < 0.62 else r.choice(WMA_INTERP) if x < 0.95 else r.choice(['XYZ', '', '4X100'])
         age = r.choice([r.randint(30, 100), r.randint(5, 110), r.choice([35, 40, 50, 62.5, 0, 101])])
         k = r.random()
         if k < 0.5:
